@@ -237,8 +237,8 @@ Definition parse_rfc3339 (s : list Z) : res Z :=
   if (m <? 1) || (12 <? m) || (d <? 1) || (days_in_month y m <? d) || (23 <? hh) || (59 <? mi) || (59 <? ss) then Err else
   let local := days_from_civil y m d * 86400 + hh * 3600 + mi * 60 + ss in
   match s with
-  | [90] => Ok local
   | sg :: r =>
+    if (sg =? 90) && (match r with [] => true | _ => false end) then Ok local else
     if (sg =? 43) || (sg =? 45) then
       opt (zh, r) <- num_fixed 2 r ;; opt r <- lit 58 r ;; opt (zm, r) <- num_fixed 2 r ;;
       match r with
